@@ -23,10 +23,11 @@ namespace vf {
 // needs reply bytes, so everything runs on one thread with exact byte accounting
 struct Wire {
   std::vector<uint8_t> req, rep; size_t req_pos = 0, rep_pos = 0;
+  size_t rep_cap = SIZE_MAX;     // reply direction can be given a capacity: writes beyond it fail with WriteLimitReached
   bool pending = false; uint64_t dispatches = 0; bool last_ok = false; nop::ErrorStatus last_err = nop::ErrorStatus::None;
   std::function<nop::Status<void>()> serve;
   void run_server() { pending = false; dispatches++; auto st = serve(); last_ok = (bool)st; last_err = st ? nop::ErrorStatus::None : st.error(); }
-  void reset() { req.clear(); rep.clear(); req_pos = rep_pos = 0; pending = false; }
+  void reset() { req.clear(); rep.clear(); req_pos = rep_pos = 0; pending = false; rep_cap = SIZE_MAX; }
 };
 struct ReqWriter {   // client side
   Wire* w;
@@ -44,10 +45,11 @@ struct ReqReader {   // server side
 };
 struct RepWriter {   // server side
   Wire* w;
+  bool room(size_t n) const { return n <= w->rep_cap - std::min(w->rep_cap, w->rep.size()); }
   nop::Status<void> Prepare(std::size_t) { return {}; }
-  nop::Status<void> Write(std::uint8_t b) { w->rep.push_back(b); return {}; }
-  template <typename T, typename E = nop::EnableIfArithmetic<T>> nop::Status<void> Write(const T* b, const T* e) { const uint8_t* p = reinterpret_cast<const uint8_t*>(b); w->rep.insert(w->rep.end(), p, p + (e - b) * sizeof(T)); return {}; }
-  nop::Status<void> Skip(std::size_t n, std::uint8_t v = 0) { w->rep.insert(w->rep.end(), n, v); return {}; }
+  nop::Status<void> Write(std::uint8_t b) { if (!room(1)) return nop::ErrorStatus::WriteLimitReached; w->rep.push_back(b); return {}; }
+  template <typename T, typename E = nop::EnableIfArithmetic<T>> nop::Status<void> Write(const T* b, const T* e) { size_t k = (size_t)(e - b) * sizeof(T); if (!room(k)) return nop::ErrorStatus::WriteLimitReached; const uint8_t* p = reinterpret_cast<const uint8_t*>(b); w->rep.insert(w->rep.end(), p, p + k); return {}; }
+  nop::Status<void> Skip(std::size_t n, std::uint8_t v = 0) { if (!room(n)) return nop::ErrorStatus::WriteLimitReached; w->rep.insert(w->rep.end(), n, v); return {}; }
 };
 struct RepReader {   // client side
   Wire* w;
